@@ -21,6 +21,14 @@ def _recv(node):
 def charged_sum(run, rule, ci, fn0, mean, energy_fn):
     """energy_fn: name of the conversion applied to the relative speed ('EvAmuToMS.inv' or 'ms_to_evamu')."""
     K = '%s|%s|%s|' % (ci.mod.name, ci.name, fn0.name)
+    # every term of the sum is computed from the arguments and its own species: nothing an iteration computes for itself (the relative
+    # velocity) may be written back into a name the next iteration starts from
+    from ._purity import carried_between_iterations
+    for st_, n_ in carried_between_iterations(fn0):
+        run.subject(rule)
+        run.fail(rule, K + 'carried:' + n_, ci.mod.relpath, st_.lineno,
+                 "%s.%s rebinds '%s' inside the loop over the species from its own previous value (%s) and then uses it for the term of that "
+                 "species: the term of each species contains what was subtracted for the species before it" % (ci.name, fn0.name, n_, norm(st_)[:60]))
     fn = propagate(fn0)
     x, y, z, bv = [a.arg for a in fn.args.args[1:5]]
     XYZ = '(%s, %s, %s)' % (x, y, z)
